@@ -135,10 +135,23 @@ func genC12(x *Ctx) *c12Scen {
 					member[sid] = true
 				}
 			case 2, 3, 6, 7: // toggle a route (only legal while serving on a service with dynamic routes)
+				// routes are owned by route id, not by service: two admin tasks may change different
+				// routes of the SAME service at the same time, and neither change may be lost
+				sp = sc.Svcs[tp.G(nSvc)]
+				sid = sp.ID
 				if !sp.Dynamic {
 					return
 				}
-				r := sp.Routes[tp.G(len(sp.Routes))]
+				var mine []RouteSpec
+				for _, r := range sp.Routes {
+					if r.ID%nAdmin == a {
+						mine = append(mine, r)
+					}
+				}
+				if len(mine) == 0 {
+					return
+				}
+				r := mine[tp.G(len(mine))]
 				if present[r.ID] {
 					ops = append(ops, AdminOp{Kind: "unroute", Svc: sid, Route: r.ID})
 					present[r.ID] = false
